@@ -7,8 +7,10 @@
       two alternatives start with different characters, everything after the digits optional — Python's first match is
       the longest one; this identification is tied by correspondence); then white space is skipped and group 2 /
       `cssLengthUnits` is the run of unit characters, lower-cased (`m.group(2).lower()`; "" when absent).
-    * `cssLengthNum = float(m.group(1))`, `str(cssLengthNum * (i+1))` and `str(cssLengthNum)` are NOT modelled: Python's
-      float parsing, multiplication and repr are a PARAMETER (`FloatOracle`) — checked by correspondence only.
+    * `cssLengthNum = float(m.group(1))`, `_lengthNumber(cssLengthNum, text, i+1)` and `_lengthNumber(cssLengthNum, text, 1)`
+      (since /repo fe67379: `str(num * factor)`, written out positionally from the decimal text where Python would use an
+      exponent or `inf`) are NOT modelled: Python's float parsing, multiplication, repr and `Decimal` are a PARAMETER
+      (`FloatOracle`) — checked by correspondence only.
     * the `while` loop = `levelsFrom`; per specification `mkLevel`:
         `numFormatPattern.search(specification)` with `([1IiAa])` = `findFmt` (first format character);
         prefix = text before it, suffix = text after it, displayLevels = i+1 | 1;
